@@ -499,3 +499,11 @@ Proof.
   split; [repeat constructor|]. split; [repeat constructor|]. split; [reflexivity|].
   cbn [greedy_hist]. split; [reflexivity|]. split; [vm_compute; reflexivity | exact I].
 Qed.
+
+(* CooperativeModel::sampleSRs / sampleSR / getExpectedReward: per-basis reward components and their sum *)
+Theorem sampleSRs_rewards_flat : forall SS AA rewards s a,
+  sampleSRs_rewards SS AA rewards s a = map (fun b => entry2 SS AA b s a) rewards /\
+  (qsum (sampleSRs_rewards SS AA rewards s a) == flat2 SS AA rewards s a)%Q /\
+  (expectedReward SS AA rewards s a == flat2 SS AA rewards s a)%Q.
+Proof. exact sampleSRs_rewards_lemma. Qed.
+Print Assumptions sampleSRs_rewards_flat.
